@@ -117,13 +117,14 @@ class Mon:
     """A persistent executor process: one JSON request per line in, one JSON
     reply per line out."""
 
-    def __init__(self, mode, env=None, binary="vpmon", preexec=None, cwd=None, prefix=()):
+    def __init__(self, mode, env=None, binary="vpmon", preexec=None, cwd=None, prefix=(), umask=-1):
         e = dict(os.environ)
         if env:
             e.update(env)
         self.args = list(prefix) + [os.path.join(BIN, binary), mode]
+        self.umask = 0o022 if umask == -1 else umask
         self.p = subprocess.Popen(self.args, stdin=subprocess.PIPE, stdout=subprocess.PIPE,
-                                  env=e, preexec_fn=preexec, cwd=cwd)
+                                  env=e, preexec_fn=preexec, cwd=cwd, umask=umask)
 
     def call(self, req):
         self.p.stdin.write((json.dumps(req) + "\n").encode())
@@ -143,6 +144,9 @@ class Mon:
             self.p.wait(timeout=10)
         except Exception:
             self.p.kill()
+
+
+UMASKS = [0o022, 0o077, 0o027, 0o002]      # process umasks the executors are run under (a build process inherits whatever the platform sets)
 
 
 def hx(b):
